@@ -168,9 +168,14 @@ Definition P_graffiti (g : list N) (ps : list node_client) (o : outcome (list (l
 (* path 4 *)
 
 Definition doc_rejectable (d : doc) : bool :=
-  match d with DMalformed | DVersion _ => true | _ => false end.
+  match d with DUnavailable | DMalformed | DVersion _ => true | _ => false end.
 
-Fixpoint P_config_steps (prev : option (list (outcome (list N) cfg_err)))
+Definition lookups_eqb := list_eqb (prod_eqb N.eqb N.eqb).
+Definition outs_eqb :=
+  list_eqb (outcome_eqb (fun a b : list N => list_eqb N.eqb (sort_by (fun x => x) a) (sort_by (fun x => x) b)) cfg_err_eqb).
+
+(* [prev] = the lookups asked and answered after the last accepted document *)
+Fixpoint P_config_steps (prev : option (list (N * N) * list (outcome (list N) cfg_err)))
          (steps : list (doc * list (N * N)))
          (obs : list (outcome unit cfg_err * list (outcome (list N) cfg_err))) : bool :=
   match steps, obs with
@@ -178,14 +183,16 @@ Fixpoint P_config_steps (prev : option (list (outcome (list N) cfg_err)))
   | (d, lks) :: steps', (dec, outs) :: obs' =>
       negb (is_panic dec) && forallb (fun o => negb (is_panic o)) outs
       && (lenN outs =? lenN lks)
-      (* malformed / unknown-version documents are rejected *)
+      (* unreadable / malformed / unknown-version documents are rejected *)
       && (if doc_rejectable d then is_err dec else true)
-      (* with no configuration at all every lookup falls back to "no relays" *)
-      && (match prev, dec with
-          | None, Err _ => forallb (fun o => match o with Ok [] => true | _ => false end) outs
+      && (match dec, prev with
+          (* with no configuration at all every lookup falls back to "no relays" *)
+          | Err _, None => forallb (fun o => match o with Ok [] => true | _ => false end) outs
+          (* a rejected document leaves the previous configuration in place *)
+          | Err _, Some (lks', outs') => if lookups_eqb lks lks' then outs_eqb outs outs' else true
           | _, _ => true
           end)
-      && P_config_steps (match dec with Ok _ => Some outs | _ => prev end) steps' obs'
+      && P_config_steps (match dec with Ok _ => Some (lks, outs) | _ => prev end) steps' obs'
   | _, _ => false
   end.
 
